@@ -37,12 +37,18 @@ theorem exitNode_eq (p q : Int) : exitNode p q = .stmt p (exitSmp q).code := rfl
 
 /-- **the flow passes on an embedded structured body**: `condition_detect` then `loop_detect` turn the raw list followed by the
     final exit into the source nesting followed by the exit -/
-theorem flow_core (ss : List Stmt) (src : List Src) (hemb : EmbSrc ss src) (hok : okAmbs false ss = true) (a : Nat) (q : Int) :
+theorem fragTs_append_exit : ∀ (ss : List Stmt), FragTs ss = true → FragTs (ss ++ [.exit]) = true
+  | [], _ => by simp [FragTs, FragT]
+  | s :: ss, h => by
+    simp only [FragTs, Bool.and_eq_true, List.cons_append] at h ⊢
+    exact ⟨h.1, fragTs_append_exit ss h.2⟩
+
+theorem flow_core (ss : List Stmt) (src : List Src) (hfr : FragTs ss = true) (hemb : EmbSrc ss src) (hok : okAmbs false ss = true) (a : Nat) (q : Int) :
     (condDetect (emit false (a : Int) (lower src) ++ [exitNode ((a : Int) + P.sizes (lower src)) q])).bind loopDetect =
       .ok (tgtL (a : Int) src ++ [exitNode ((a : Int) + P.sizes (lower src)) q]) := by
   have hx : EmbSrc1 .exit (.simple (exitSmp q)) := ⟨exitSmp q, 0, rfl, by simp [exitSmp], ⟨0, q, rfl⟩, PlainStmt.call _ _ _ _ _ _ _ _⟩
   have hemb' : EmbSrc (ss ++ [.exit]) (src ++ [.simple (exitSmp q)]) := embSrc_append ss src [.exit] _ hemb ⟨_, [], rfl, hx, rfl⟩
-  have hcls := classs (ss ++ [.exit]) _ hemb' false none (a : Int) (Or.inl rfl) (okAmbs_append_exit ss false hok)
+  have hcls := classs (ss ++ [.exit]) _ (fragTs_append_exit ss hfr) hemb' false none (a : Int) (Or.inl rfl) (okAmbs_append_exit ss false hok)
   have hrec := reconstruct _ (a : Int) hcls
   rw [lower_append, emit_append, tgtL_append] at hrec
   simpa [lower, lower1, emit, emit1, tgtL, tgtL1, exitNode_eq, exitSmp] using hrec
